@@ -132,7 +132,7 @@ def run(ctx):
               "MaxPB0": "2" if ctx.quick else "3", "NVals": "2" if ctx.quick else "3"}
     cases_file, cases = p3.generate(ctx, "Builder", consts)
     ctx.log(f"{len(cases)} cases")
-    results = [result_of(c) for c in cases]
+    cases, results = p3.execute(ctx, cases, cases_file, result_of)
     rf = ctx.scratch / "c19_results.json"
     rf.write_text(json.dumps(results))
     bad = p3.judge(ctx, "Builder", consts, cases_file, rf, env=judge_env(cases_file))
